@@ -46,7 +46,9 @@ def catalogue(K, thorough=False):
             S.BUDGET(K), S.REWIRE(K),
             S.BATCH(K, size=2, cap=3, sink_cycle=2), S.BUFBATCH(K), S.BUFBATCH(K, pattern=(3, 2), cap=4, size=2),
             S.BATCH_DIRECT(K), S.GRPFAN(K), S.RES_SHUT(K), S.BLOCKED_OUT(K), S.FANOUT_DELAY(K), S.BATCHGATE(K),
-            S.GRPPAR(K, horizon=hg), S.SCHED_BLOCK(K)]
+            S.GRPPAR(K, horizon=hg), S.SCHED_BLOCK(K),
+            S.GRP_BLOCKED(K), S.GRPBATCH(K), S.EMPTYBATCH(K), S.TWOSRC(K), S.GATE_NONE(K), S.DELAY01_LONG(0),
+            S.MAINT2_SCRIPT(K)]
     return rows
 
 
@@ -81,7 +83,7 @@ def _line_jobs(specs, mons, tier, e2q=3, e2t=10, trace=False, **caps):
     caps.setdefault('max_depth', 800)
     out = []
     for sp in split_specs(specs):
-        m = [(['route', sp['name'].startswith('FAN')] if x == 'route' else x) for x in mons]
+        m = [(['route', sp['name'].startswith(('FAN', 'GRPFAN'))] if x == 'route' else x) for x in mons]
         out.append(line_job(sp, m, e2=e2q if tier == 'quick' else e2t, trace=trace, **caps))
     return out
 
@@ -139,6 +141,8 @@ class C03(Check):
         K = 1 if tier == 'quick' else 2
         specs = catalogue(K, tier != 'quick') + [S.MAINT(K + 1, n=1), S.RES(K + 1, horizon=4), S.BUDGET(K + 1),
                                                    S.REWIRE(K + 1, horizon=4), S.BLOCK(K + 1, horizon=4)]
+        # capacity changes / unblocking / budget adjustments made BETWEEN two consecutive runs must wake parts up too
+        specs += [S.with_splits(x) for x in (S.RES(K), S.BLOCK(K), S.BUDGET(K))]
         jobs = _line_jobs(specs, ['wakeup'], tier)
         nmax = 1 if tier == 'quick' else 2
         for sp, ok in S.ser_family(n_max=nmax):
@@ -150,7 +154,9 @@ class C03(Check):
 def buffer_scenarios(K, thorough):
     rows = [S.FAN(K), S.FANOUT(K), S.BATCH(K, cap=2, sink_cycle=1), S.BATCH(K, pattern=(3, None, 2), size=None, cap=3, sink_cycle=1),
             S.MAINT(K), S.RES_SER(K), S.DELAY01(K), S.BUFBATCH(K), S.BUFBATCH(K, pattern=(3, 2), cap=4, size=2),
-            S.FANOUT_DELAY(K), S.BATCH(K, size=2, cap=3, sink_cycle=2), S.BATCH_DIRECT(K, cap=3, sink_cycle=1)]
+            S.FANOUT_DELAY(K), S.BATCH(K, size=2, cap=3, sink_cycle=2), S.BATCH_DIRECT(K, cap=3, sink_cycle=1),
+            S.TWOSRC(K), S.TWOSRC(K, eps=1e-9, delay=1, horizon=4), S.DELAY01_LONG(0), S.EMPTYBATCH(K),
+            S.BUFBATCH(K, pattern=(3, 3, None), cap=5, size=None, sink_cycle=2)]
     return rows
 
 
@@ -190,7 +196,7 @@ class C06(Check):
     def jobs(self, tier):
         K = 2 if tier == 'quick' else 3
         specs = [S.MAINT(K, n=1), S.CYCLES(K), S.MAINT(K - 1), S.RES_SER(K - 1), S.CYCLES2(K - 1), S.FAN(K - 1),
-                 S.BUDGET(K - 1), S.BUDGET(K, budget=1, horizon=4)]
+                 S.BUDGET(K - 1), S.BUDGET(K, budget=1, horizon=4), S.MAINT_SCRIPT(K), S.MAINT2_SCRIPT(K - 1)]
         jobs = _line_jobs(specs, ['cycle'], tier)
         for sp, ok in S.ser_family(n_max=1 if tier == 'quick' else 2):
             if ok:
@@ -214,7 +220,8 @@ class C08(Check):
         th = tier != 'quick'
         hg = 6 if th and K <= 1 else 4
         specs = [S.FAN(K), S.FAN3(2, horizon=8), S.GRPFAN(K), S.GRPPAR(K, horizon=hg), S.SCHED_BLOCK(K), S.RES(K),
-                 S.BATCHGATE(K), S.BATCH_DIRECT(K), S.GATE(K), S.REENT(K), S.REENT(K, src_cycle=1), S.GRP2(K, horizon=hg),
+                 S.BATCHGATE(K), S.BATCH_DIRECT(K), S.GATE(K), S.GATE_NONE(K), S.GRPBATCH(K), S.GRP_BLOCKED(K),
+                 S.FANFAIL(2), S.REENT(K), S.REENT(K, src_cycle=1), S.GRP2(K, horizon=hg),
                  S.NEST_MID(K, horizon=hg), S.NEST_OUT(K, horizon=hg), S.BLOCK(K), S.BATCH(K), S.REWIRE(K), S.GATEGRP(K)]
         return _line_jobs(specs, ['route'], tier) + topo_jobs(['route'], tier)
 
@@ -251,8 +258,10 @@ class C13(Check):
 
     def jobs(self, tier):
         K = 2 if tier == 'quick' else 3
-        specs = [S.MAINT(K, n=1, probes=3), S.MAINT(K - 1, probes=3), S.FAN(K - 1), S.BLOCKED_OUT(K)]
-        jobs = _line_jobs(specs, ['shutdown', 'wakeup'], tier)
+        specs = [S.MAINT(K, n=1, probes=3), S.MAINT(K - 1, probes=3), S.FAN(K - 1), S.BLOCKED_OUT(K),
+                 S.MAINT_SCRIPT(K, probes=3), S.MAINT2_SCRIPT(K - 1)]
+        # the cycle monitor rides along: a part whose processing time is stretched or cut by an outage shows up there
+        jobs = _line_jobs(specs, ['shutdown', 'wakeup', 'cycle'], tier)
         if tier != 'quick':
             jobs += topo_jobs(['shutdown'], tier, kinds=('processor',))
         return jobs
@@ -276,7 +285,12 @@ class C15(Check):
         specs = catalogue(K, tier != 'quick') + [S.MAINT(K + 1, n=1), S.VALUE(K)]
         # the same log obligations across consecutive simulate() calls, with operations issued between the runs
         specs += [S.with_splits(x) for x in (S.RES(K), S.MAINT(K, n=1), S.BUDGET(K), S.BATCH(K), S.FAN(K))]
-        return _line_jobs(specs, ['data'], tier, e2q=6, e2t=20, trace=True) + topo_jobs(['data'], tier)
+        specs += [S.VALUE0(K), S.MAINT_SCRIPT(K)]
+        jobs = _line_jobs(specs, ['data'], tier, e2q=6, e2t=20, trace=True) + topo_jobs(['data'], tier)
+        # the schedule-record clause: timetables with repeated states, wrap-around, zero durations
+        sch = [S.SCHED([(1, 'a'), (0.5, 'a'), (1, 'b')], True, [('o1', 'default')], K=K),
+               S.SCHED([(1, 'a')], True, [], K=K), S.SCHED([(0.5, 'a'), (0, 'b'), (0.5, 'a')], False, [], K=K), S.SCHED_BLOCK(K)]
+        return jobs + _line_jobs(sch, ['data', 'schedule'], tier, trace=True)
 
 
 @check
@@ -291,7 +305,7 @@ class C16(Check):
     def jobs(self, tier):
         K = 1 if tier == 'quick' else 2
         specs = [S.VALUE(K), S.VALUE(K + 1, horizon=4), S.VALUE_BATCH(K), S.MAINT(K), S.MAINT(K + 1, n=1),
-                 S.VALUE_NEST(K), S.VALUE_NEG(K), S.VALUE_NEG(K + 1, horizon=4)]
+                 S.VALUE_NEST(K), S.VALUE_NEG(K), S.VALUE_NEG(K + 1, horizon=4), S.VALUE0(K), S.VALUE0(K + 1, horizon=4)]
         return _line_jobs(specs, ['value'], tier) + topo_jobs(['value'], tier)
 
 
@@ -319,7 +333,7 @@ class C17(Check):
         for pat in [(None, 2), (0, 2, None), (None, 0, 3), (3, 1), (2, 2, None)]:
             for size in (None, 2, 3):
                 specs.append(S.BATCH_DIRECT(K, pattern=pat, size=size, cap=4 if size else None, sink_cycle=1 if size else 0))
-        specs += [S.BUFBATCH(K), S.BUFBATCH(K, pattern=(3, 2), cap=4, size=2), S.BATCHGATE(K)]
+        specs += [S.BUFBATCH(K), S.BUFBATCH(K, pattern=(3, 2), cap=4, size=2), S.BATCHGATE(K), S.GRPBATCH(K), S.EMPTYBATCH(K)]
         return _line_jobs(specs, ['batching', 'census', 'route'], tier) + \
             topo_jobs(['batching', 'census', 'route'], tier, kinds=('batcher',))
 
